@@ -15,11 +15,15 @@ def bytesCheck (enabled : Bool) (opcode : Nat) (p : Bytes) : Bool := checkEncodi
 
 /-- `Buffers.CheckEncoding`: a single slice is checked in place; several slices are joined first so
 that a code point may span two slices. -/
+def validJoined (ps : List Bytes) : Bool :=
+  match ps with
+  | [p] => Spec.Utf8.valid p                 -- `len(b) == 1`: checked in place
+  | _ => Spec.Utf8.valid ps.flatten          -- `utf8.Valid(bytes.Join(b, nil))`
+
 def buffersCheck (enabled : Bool) (opcode : Nat) (ps : List Bytes) : Bool :=
-  if enabled && (opcode == 1 || opcode == 8) then
-    match ps with
-    | [p] => Spec.Utf8.valid p
-    | _ => Spec.Utf8.valid ps.flatten
-  else true
+  if enabled && (opcode == 1 || opcode == 8) then validJoined ps else true
+
+theorem validJoined_eq (ps : List Bytes) : validJoined ps = Spec.Utf8.valid ps.flatten := by
+  unfold validJoined; split <;> simp
 
 end Utf8
